@@ -309,11 +309,11 @@ def _check_die(W, H, regs, fixed, txt, net):
 
 @contract(P, kind="enum", functions=[D + "__init__", D + "_calculate_cell_matrix", D + "_find_all_ground_rectangles",
                                      D + "_expand_rectangle", D + "_find_best_rectangle", "frame.geometry.geometry.gather_boundaries"],
-          scope="bounded: all layouts of <= 2 regions (+ sampled triples) on a 5x5 lattice (6x6 thorough), 5 scalings", params=[dict(chunk=i) for i in range(16)])
+          scope="bounded: all layouts of <= 2 regions (+ sampled triples) on a 5x5 lattice, 5 scalings (thorough: every kind assignment of every pair, 30000 triples)", params=[dict(chunk=i) for i in range(16)])
 def valid_dies_are_accepted_and_tiled(chunk, replay=None):
     tier = os.environ.get("VERIF_TIER", "quick")
     seed = int(os.environ.get("VERIF_SEED", "0") or 0)
-    n = 5 if tier != "thorough" else 6
+    n = 5
     rng = random.Random(seed * 7919 + 13)
     failures, evals, nontrivial, samples = [], 0, 0, []
     seen = set()
@@ -322,8 +322,8 @@ def valid_dies_are_accepted_and_tiled(chunk, replay=None):
     else:
         items = []
         idx = 0
-        for layout in _layouts(n, 3, rng, 3000 if tier != "thorough" else 40000):
-            if len(layout) <= 1 or tier == "thorough":
+        for layout in _layouts(n, 3, rng, 3000 if tier != "thorough" else 30000):
+            if len(layout) <= 1 or (tier == "thorough" and len(layout) == 2):
                 kind_sets = list(itertools.product(KIND_OF[:3], repeat=len(layout)))
             else:
                 kind_sets = [tuple(rng.choice(KIND_OF) for _ in layout) for _ in range(2)]
